@@ -233,6 +233,24 @@ pub fn name_collision_documents() -> Vec<String> {
             out.push(format!("package a:b;\nimport i: interface {{ {decl} }};\nlet {name} = i.{name};\n{}\n", u.replace("{N}", name)));
         }
     }
+    // package paths of one to three segments into the document's own package, landing on every
+    // kind of item (interface, world, function, type, resource, inline interface of a world,
+    // nothing), in every position that takes a package path
+    let decls = "interface i0 { type x = u8; f: func(); resource r; }\nworld w0 { import f: func(); export x: interface { f: func(); }; import i0; export g: func(); import y: interface { type t = u8; }; }\n";
+    let paths = [
+        "a:b/i0", "a:b/w0", "a:b/w0/x", "a:b/w0/y", "a:b/w0/f", "a:b/w0/g", "a:b/w0/i0", "a:b/i0/x", "a:b/i0/f", "a:b/i0/r", "a:b/nope", "a:b/w0/nope",
+        "a:b/i0/x/y", "a:b/w0/x/f", "a:b/w0/y/t",
+    ];
+    let positions = [
+        "import z: {P};", "world v { import {P}; }", "world v { export {P}; }", "interface j { use {P}.{x}; }", "interface j { use {P}.{t}; }",
+        "world v { include {P}; }", "world v { use {P}.{x}; }", "import z: interface { use {P}.{x}; };",
+    ];
+    for path in paths {
+        for pos in positions {
+            out.push(format!("package a:b;\n{decls}{}\n", pos.replace("{P}", path)));
+        }
+        out.push(format!("package a:b targets {path};\n{decls}"));
+    }
     for a in iface_items {
         for b in iface_items {
             out.push(format!("{pre}interface i {{ {a} {b} }}\n"));
